@@ -18,10 +18,11 @@ pub trait StrExt {
 
 impl StrExt for str {
     fn has_linebreak(&self) -> bool {
-        self.contains('\n')
+        self.contains(typst_syntax::is_newline)
     }
 
     fn count_linebreaks(&self) -> usize {
-        self.chars().filter(|c| *c == '\n').count()
+        // Count as the lexer does: CR, LS, PS etc. are line breaks too, and CRLF is one break.
+        typst_syntax::split_newlines(self).len() - 1
     }
 }
